@@ -89,12 +89,20 @@ class DerivationTree:
             self.__is_open = True
 
     def to_json(self) -> str:
-        the_dict = self.__dict__
-        if "_DerivationTree__k_paths" in the_dict:
-            del the_dict["_DerivationTree__k_paths"]
-        if "_DerivationTree__concrete_k_paths" in the_dict:
-            del the_dict["_DerivationTree__concrete_k_paths"]
-        return json.dumps(the_dict, default=lambda o: o.__dict__)
+        # The k-path caches are not serialized. We must not remove them from the
+        # live objects, and we have to skip them for all nodes (not only the root).
+        def node_to_dict(node: "DerivationTree") -> dict:
+            return {
+                key: value
+                for key, value in node.__dict__.items()
+                if key
+                not in (
+                    "_DerivationTree__k_paths",
+                    "_DerivationTree__concrete_k_paths",
+                )
+            }
+
+        return json.dumps(node_to_dict(self), default=node_to_dict)
 
     def __getstate__(self) -> bytes:
         return zlib.compress(self.to_json().encode("UTF-8"))
